@@ -260,6 +260,132 @@ def unescape(s):
     return re.sub(r"\\(.)", r"\1", s[1:-1], flags=re.S)
 
 
+# ------------------------------------------------------------------ the build model (factory/Build.v) against FiltersSet
+
+def ser_v(v):
+    if isinstance(v, bool):
+        raise ValueError("bool")
+    if isinstance(v, int):
+        return "i%d" % v
+    if isinstance(v, list):
+        return "l" + "+".join(hx(e.encode("utf-8")) for e in v)
+    return "s" + hx(v.encode("utf-8"))
+
+
+def ser_t(t):
+    return ",".join(ser_v(v) for v in t) if len(t) else "()"
+
+
+def ser_ts(ts):
+    return ";".join(ser_t(t) for t in ts) if ts else "-"
+
+
+def exc_cat(e):
+    return {"UnknownCommand": "err:unknown_command", "ExtensionNotLoaded": "err:ext_not_loaded", "BadArgument": "err:bad_argument",
+            "BadValue": "err:bad_value", "FilterAlreadyExists": "exists"}.get(type(e).__name__, "crash")
+
+
+def mutate_definition(rng, conds, acts):
+    """The malformed stream: definitions the factory must refuse, or builds into something else, exactly as the model says."""
+    conds = [tuple(c) for c in conds]
+    acts = [tuple(a) for a in acts]
+    k = rng.randrange(9)
+    if k == 0 and acts:
+        i = rng.randrange(len(acts)); acts[i] = ("nosuchaction",) + acts[i][1:]
+    elif k == 1 and acts:
+        i = rng.randrange(len(acts)); acts[i] = acts[i][:1] + (":bogus",) + acts[i][1:]
+    elif k == 2:
+        i = rng.randrange(len(conds))
+        if len(conds[i]) >= 2 and isinstance(conds[i][1], str) and conds[i][1].startswith(":"):
+            conds[i] = conds[i][:1] + (":bogus",) + conds[i][2:]
+    elif k == 3:
+        i = rng.randrange(len(conds)); conds[i] = (rng.choice(["notify", "Notes", "size", "body", "true", "nottrue", "address", "exists"]), ":is", "x")
+    elif k == 4 and acts:
+        i = rng.randrange(len(acts)); acts[i] = acts[i][:1]                     # required arguments missing
+    elif k == 5 and acts:
+        i = rng.randrange(len(acts)); acts[i] = acts[i] + ("extra", "more")    # too many: ignored by the factory
+    elif k == 6:
+        i = rng.randrange(len(conds)); conds[i] = conds[i][:2] if len(conds[i]) > 2 and conds[i][0] == "size" else conds[i]
+    elif k == 7 and acts:
+        i = rng.randrange(len(acts)); acts[i] = (acts[i][0].upper(),) + acts[i][1:]
+    else:
+        i = rng.randrange(len(conds))
+        if conds[i] and isinstance(conds[i][0], str) and conds[i][0] in ("exists", "size", "envelope", "body", "address", "currentdate"):
+            conds[i] = ("not" + conds[i][0],) + conds[i][1:]
+    return conds, acts
+
+
+def build_correspondence(report, pid, rng, drv, n, values, malformed_every=4):
+    """Histories of addfilter/updatefilter/disable/enable/move/remove with generated definitions, run on FiltersSet and on
+    the extracted model of __create_filter / FiltersSet.tosieve: return values, exception classes, rendered text, requires."""
+    from sievelib import factory, commands
+    names = ["f1", "f2", "f3"]
+    for i in range(n):
+        fs = factory.FiltersSet("t")
+        drv.ask("bnew")
+        commands.RequireCommand.loaded_extensions = []
+        hist = []
+        ok = True
+        for step in range(rng.randrange(1, 7)):
+            kind = rng.choice(["add", "add", "add", "update", "disable", "enable", "move", "remove"])
+            nm = rng.choice(names)
+            stop = False
+            if kind in ("add", "update"):
+                conds = [gen_condition(rng, values) for _ in range(rng.randrange(1, 4))]
+                acts = [gen_action(rng, values) for _ in range(rng.randrange(1, 3))]
+                malformed = malformed_every and rng.randrange(malformed_every) == 0
+                if malformed:
+                    conds, acts = mutate_definition(rng, conds, acts)
+                    report.count("build:malformed")
+                mt = rng.choice(["anyof", "allof"])
+                nm2 = rng.choice(names)
+                try:
+                    r = F.ret_str(fs.addfilter(nm, conds, acts, mt) if kind == "add" else fs.updatefilter(nm, nm2, conds, acts, mt))
+                except Exception as e:  # noqa
+                    r = exc_cat(e)
+                    if r != "exists":
+                        stop = True      # the factory may have recorded requirements before raising: the history ends here
+                if kind == "add":
+                    line = "badd %s %s %s %s" % (hx(nm.encode()), hx(mt.encode()), ser_ts(conds), ser_ts(acts))
+                else:
+                    line = "bupdate %s %s %s %s %s" % (hx(nm.encode()), hx(nm2.encode()), hx(mt.encode()), ser_ts(conds), ser_ts(acts))
+            else:
+                if kind == "disable":
+                    r = F.ret_str(fs.disablefilter(nm)); line = "bop disable " + hx(nm.encode())
+                elif kind == "enable":
+                    r = F.ret_str(fs.enablefilter(nm)); line = "bop enable " + hx(nm.encode())
+                elif kind == "move":
+                    dr = rng.choice(["up", "down"]); r = F.ret_str(fs.movefilter(nm, dr)); line = "bop move %s %s" % (hx(nm.encode()), dr)
+                else:
+                    r = F.ret_str(fs.removefilter(nm)); line = "bop remove " + hx(nm.encode())
+            m = drv.ask(line)
+            hist.append(line)
+            report.count("build:" + (r if r.startswith("err") or r in ("crash", "exists") else "ok"))
+            if r != m:
+                report.broke("correspondence %s (build model vs FiltersSet)" % pid,
+                             "step %r: implementation %s, model %s" % (line, r, m), {"property": pid, "history": hist})
+                ok = False
+                break
+            if stop:
+                ok = False
+                break
+        report.case(("build", tuple(hist)), True)
+        if not ok:
+            continue
+        text = F.render(fs).encode("utf-8")
+        m = drv.ask("brender %s %s" % (hx(b"# Filter: "), hx(b"# Description: ")))
+        if m != hx(text):
+            report.broke("correspondence %s (build model vs FiltersSet)" % pid,
+                         "rendered text differs: implementation %r, model %r" % (text[:400], unhx(m)[:400] if m.startswith("x") else m),
+                         {"property": pid, "history": hist, "text": text.decode("utf-8", "replace")})
+            continue
+        rq = drv.ask("brequires")
+        exp = ",".join(hx(x.encode()) for x in fs.requires) or "-"
+        if rq != exp:
+            report.broke("correspondence %s (build model vs FiltersSet)" % pid, "requires differ: %s vs %s" % (exp, rq),
+                         {"property": pid, "history": hist})
+
+
 # ------------------------------------------------------------------ C06
 
 def check_C06(report, tier, seed, replay=None):
@@ -410,6 +536,7 @@ def check_C06(report, tier, seed, replay=None):
         n = drv.ask("scan_string " + hx(q + b" tail"))
         if n != str(len(q)):
             report.violation("quoted value %r does not lex as one string token" % val, {"property": "C06", "value": val})
+    build_correspondence(report, "C06", rng, drv, 400 if tier == "quick" else 12000, C06_VALUES)
     drv.close()
     sdrv.close()
 
